@@ -1146,8 +1146,8 @@ func (ds *AnySource) ArchiveDataBlock(N int, file *os.File, finalName string) er
 	// The whole block is buffered in memory (2 bytes per sample and channel): refuse absurd requests
 	// instead of crashing when the buffers are allocated.
 	const maxArchiveValues = 1 << 31
-	if nchan := ds.Nchan(); nchan > 0 && N > maxArchiveValues/nchan {
-		return fmt.Errorf("cannot store %d samples of %d channels in memory, limit is %d samples", N, nchan, maxArchiveValues/nchan)
+	if nchan := ds.Nchan(); N < 0 || (nchan > 0 && N > maxArchiveValues/nchan) {
+		return fmt.Errorf("cannot store %d samples of %d channels in memory, need 0 <= N <= %d", N, nchan, maxArchiveValues/max(nchan, 1))
 	}
 	ds.archiveBlock.earliestTime = time.Now()
 	ds.archiveBlock.requestedSamples = N
